@@ -144,7 +144,7 @@ func newContractDB() *ContractDB {
 	return &ContractDB{Funcs: map[string]*Contract{}, Specs: map[string]*SpecFunc{}, Lemmas: map[string]*Lemma{}, Consts: map[string]string{}, Ghosts: map[string]string{}}
 }
 
-var keywordRe = regexp.MustCompile(`^(package|axiom|func|requires|ensures|modifies|mode|loop|invariant|decreases|hint|unfold|use|induct|may_panic|trusted|abstracts|inline|intonly|partial|posts_only|assert_at|use_at|unfold_at|step_at|ghost_at|assert_call|assume_call|preserves|sets|volatile_inv|check_pre|ensures_assumed|wraps_signed|volatile|witness|cases|property|spec|lemma|struct|global|ghost|noframe|const)\b`)
+var keywordRe = regexp.MustCompile(`^(package|axiom|func|requires|ensures|modifies|mode|loop|invariant|decreases|hint|unfold|use|induct|may_panic|trusted|abstracts|inline|intonly|partial|posts_only|assert_at|use_at|unfold_at|step_at|ghost_at|ghost_call|assert_call|assume_call|preserves|sets|volatile_inv|check_pre|ensures_assumed|wraps_signed|volatile|witness|cases|property|spec|lemma|struct|global|ghost|noframe|const)\b`)
 
 // stripComment removes a trailing `// ...` that is outside string literals
 func stripComment(s string) string {
@@ -768,6 +768,18 @@ func (db *ContractDB) LoadFile(path, pkgPath string, trusted bool) error {
 					return err
 				}
 				cur.CallAssumes = append(cur.CallAssumes, &SiteAssert{Text: strings.TrimSpace(parts[0]), Cl: cl})
+			case "ghost_call":
+				// ghost_call T.m: ghost(g) = expr(result0.., arg0.., caller locals)  - ghost assignment
+				// after every call of T.m in this function (bookkeeping of what a callee returned)
+				parts := strings.SplitN(rest, ":", 2)
+				if len(parts) != 2 {
+					return fmt.Errorf("%s: ghost_call needs `<callee>: ghost(g) = <expr>`", st.src)
+				}
+				cl, err := parseClause(strings.Replace(strings.TrimSpace(parts[1]), "=", "==", 1), st.src)
+				if err != nil {
+					return err
+				}
+				cur.CallAssumes = append(cur.CallAssumes, &SiteAssert{Text: strings.TrimSpace(parts[0]), Cl: cl, Ghost: true})
 			case "assert_call":
 				// assert_call T.m: expr over recv, arg0, arg1, ... and the caller's locals
 				parts := strings.SplitN(rest, ":", 2)
